@@ -129,10 +129,20 @@ def call_ext(I: Any, name: str, args: List[Term], kwargs: Dict[str, Term], st: A
             return c("")
         return format_value(I, args[0], "", st, ctx, node)
     if name == "builtins.bytes":
-        if len(args) == 1:
-            s = T.to_seq(args[0])
-            if s is not None and s[1] == "raw":
-                return s
+        if len(args) == 1 and not kwargs:
+            a0 = args[0]
+            if isinstance(a0, tuple) and a0 and a0[0] == "revbytes":
+                return a0[1]          # bytes(reversed(b)) == b[::-1]
+            if is_c(a0) and isinstance(a0[1], int) and not isinstance(a0[1], bool) and 0 <= a0[1] <= 4096:
+                return ("seq", "raw", (("L", "00" * a0[1]),) if a0[1] else ())
+            s = T.to_seq(a0)
+            if s is not None and s[1] in ("raw", "b"):
+                return a0 if s[1] == "b" else s
+            items = I.iter_items(a0, st, ctx, node)
+            if items is not None and all(is_c(x) and isinstance(x[1], int) and 0 <= x[1] <= 255 for x in items):
+                return ("seq", "raw", (("L", bytes(x[1] for x in items).hex()),) if items else ())
+            if items is not None and items and all(is_c(x) and isinstance(x[1], int) and 0 <= x[1] <= 255 or byte_atom_of(x) is not None for x in items):
+                return T.seq("raw", tuple(("L", "%02x" % x[1]) if is_c(x) else byte_atom_of(x) for x in items))
         return app(name, args, kwargs)
     if name == "builtins.len":
         return length(I, args[0], st, ctx, node)
@@ -377,6 +387,16 @@ def call_ext(I: Any, name: str, args: List[Term], kwargs: Dict[str, Term], st: A
         # positional and keyword spelling of the same constructor call: one canonical (keyword) form
         kwargs = {**dict(zip(("hour", "minute", "second", "microsecond"), args)), **kwargs}
         args = []
+    if name in ("binascii.crc_hqx",) and len(args) == 2 and not kwargs and isinstance(args[1], tuple) and args[1][:2] == ("app", "binascii.crc_hqx") and len(args[1]) == 4:
+        # crc_hqx(B, crc_hqx(A, init)) == crc_hqx(A + B, init): the CRC register is carried over
+        def _raw(v: Term) -> Optional[Term]:
+            q = T.to_seq(v) if _textlike(v) else None
+            if q is not None and q[1] == "b" and all(a[0] == "L" for a in q[2]):
+                return ("seq", "raw", (("L", "".join(a[1] for a in q[2]).encode("latin-1").hex()),))
+            return q
+        sa_, sb_ = _raw(args[1][2]), _raw(args[0])
+        if sa_ is not None and sb_ is not None and sa_[1] == sb_[1] == "raw":
+            return app(name, [T.concat(sa_, sb_), args[1][3]])
     if name in PURE_APPS:
         if name in MAY_RAISE_APPS:
             st.may_raise(MAY_RAISE_APPS[name], ("invalid", name, tuple(args) + kwitems(kwargs)), where)
@@ -641,6 +661,14 @@ def arith(op: str, a: Term, b: Term) -> Term:
             return Lin.of(b).scale(a[1]).term()
         if is_c(b) and isinstance(b[1], (int, float)):
             return Lin.of(a).scale(b[1]).term()
+    # masks and shifts of non-negative integers are remainders and quotients by powers of two
+    if op in ("and", "rshift") and is_c(b) and isinstance(b[1], int) and not isinstance(b[1], bool) and is_int_term(a):
+        ra = T.int_range(a)
+        if ra is not None and ra[0] is not None and ra[0] >= 0:
+            if op == "and" and b[1] > 0 and (b[1] & (b[1] + 1)) == 0:
+                return arith("mod", a, c(b[1] + 1))
+            if op == "rshift" and 0 <= b[1] <= 64:
+                return arith("floordiv", a, c(1 << b[1]))
     # digit extraction with positive constant moduli, valid for every integer x (floor semantics):
     #   (x // a) // b == x // (a*b);   (x % (a*b)) // a == (x // a) % b;   (x % (a*b)) % a == x % a
     if op in ("floordiv", "mod") and is_c(b) and isinstance(b[1], int) and not isinstance(b[1], bool) and b[1] > 0 and a[0] == "app" and len(a) == 4 and is_c(a[3]) and isinstance(a[3][1], int) and a[3][1] > 0 and is_int_term(a[2]):
@@ -984,6 +1012,9 @@ def format_value(I: Any, x: Term, spec: str, st: Any, ctx: Any, node: ast.AST) -
     tmf = tm_field_text(x, spec)
     if tmf is not None:
         return tmf
+    ba = byte_atom_of(x)
+    if ba is not None and spec in ("02x", "02X"):
+        return ("seq", "s", (ba if spec == "02x" else ("upper", ba),))
     # numeric presentation
     x = int_view(x)
     if is_c(x):
@@ -1041,6 +1072,29 @@ def merge_strftime(v: Term) -> Term:
                     changed = True
                     break
     return ("seq", "s", tuple(atoms)) if len(atoms) != len(v[2]) else v
+
+
+def byte_atom_of(x: Term) -> Optional[Term]:
+    """x % 256 and (x // 256) of a 16-bit x, (x // 256**k) % 256 ...: the k-th little-endian byte of x, as the
+    same ("hbi", x, k) atom that hexlify(pack("<H"/"<I", x)) yields."""
+    if not (isinstance(x, tuple) and x and x[0] == "app" and len(x) == 4 and is_c(x[3]) and isinstance(x[3][1], int)):
+        return None
+    if x[1] == "mod" and x[3][1] == 256:
+        inner = x[2]
+        if isinstance(inner, tuple) and inner[:2] == ("app", "floordiv") and len(inner) == 4 and is_c(inner[3]) and inner[3][1] in (256, 65536, 16777216) and is_int_term(inner[2]):
+            r = T.int_range(inner[2])
+            if r is not None and r[0] is not None and r[0] >= 0:
+                return ("hbi", inner[2], {256: 1, 65536: 2, 16777216: 3}[inner[3][1]])
+        if is_int_term(inner):
+            r = T.int_range(inner)
+            if r is not None and r[0] is not None and r[0] >= 0:
+                return ("hbi", inner, 0)
+    if x[1] == "floordiv" and x[3][1] in (256, 65536, 16777216) and is_int_term(x[2]):
+        r = T.int_range(x[2])
+        k = {256: 1, 65536: 2, 16777216: 3}[x[3][1]]
+        if r is not None and r[0] is not None and r[0] >= 0 and r[1] is not None and r[1] < 256 ** (k + 1):
+            return ("hbi", x[2], k)
+    return None
 
 
 def str_format(I: Any, tmpl: str, args: List[Term], kwargs: Dict[str, Term], st: Any, ctx: Any, node: ast.AST) -> Term:
